@@ -40,7 +40,7 @@ ASSUMPTIONS = [
 
 def run(ctx: Ctx):
   m = model(ctx)
-  for r in (r1, r2, r3, r4, r5, r6, r8):
+  for r in (r1, r2, r3, r4, r5, r6, r8, r9):
     ctx.guard(r, m)
   ctx.include('R-C11-7', '"a freshly created (empty) state is a neutral element'
               ' on either side": merge combines every accumulated statistic on'
@@ -519,12 +519,83 @@ def r8(ctx: Ctx, m):
   ctx.floor(rule, 3, n)
 
 
+def r9(ctx: Ctx, m):
+  rule = 'R-C11-9'
+  ctx.rule(rule, '"a freshly created (empty) state is a neutral element on either side": add and merge'
+           ' agree on what an EMPTY state is. When add() treats the initial value of a statistic as a'
+           ' mere placeholder — it overwrites the field (instead of combining with it) under a test that'
+           ' the accumulator has seen nothing yet (`not self._count`, `self._count == 0`, a flag computed'
+           ' from it) — then merge() must know the same: it contains an emptiness test (of the'
+           ' receiver\'s or the operand\'s count) that guards how that field is combined. Otherwise the'
+           ' placeholder of an empty state (e.g. max = 0) takes part in merge as if it were data:'
+           ' x.merge(fresh) reports 0 for all-negative x')
+  n = 0
+
+  def empt_names(fn):
+    """Locals that hold an emptiness test of a count field."""
+    out = set()
+    for x in walk_no_nested(fn):
+      if isinstance(x, ast.Assign) and _is_emptiness(x.value, set()):
+        out |= {t.id for t in x.targets if isinstance(t, ast.Name)}
+    return out
+
+  for ci in m.accumulators:
+    add = ci.methods.get('add')
+    merge = ci.methods.get('merge')
+    if add is None or merge is None:
+      continue
+    flags = empt_names(add.node)
+    placeholder_fields = set()
+    for x in walk_no_nested(add.node):
+      if isinstance(x, ast.If) and _is_emptiness(x.test, flags):
+        for b in x.body:
+          for y in ast.walk(b):
+            if isinstance(y, ast.Assign):
+              for t in y.targets:
+                for tt in (t.elts if isinstance(t, (ast.Tuple, ast.List)) else [t]):
+                  if is_self_attr(tt) and not any(is_self_attr(z, tt.attr) for z in ast.walk(y.value)):
+                    placeholder_fields.add(tt.attr)
+    if not placeholder_fields:
+      continue
+    n += 1
+    mflags = empt_names(merge.node)
+    handled = any(isinstance(x, ast.If) and _is_emptiness(x.test, mflags) for x in walk_no_nested(merge.node))
+    if handled:
+      ctx.ok(rule, merge, f'{ci.name}: add and merge both special-case the empty state for {sorted(placeholder_fields)}', merge.node)
+    else:
+      ctx.fail(rule, merge, f'{ci.name}.merge treats an empty state like {ci.name}.add does',
+               f'{ci.name}.add overwrites {sorted(placeholder_fields)} when nothing was added yet (the initial values are'
+               f' placeholders), but {ci.name}.merge combines those fields unconditionally: the placeholder of an empty'
+               ' receiver or operand enters the result as if it were data, so a fresh state is not neutral',
+               node=merge.node)
+  ctx.floor(rule, 0, n)
+
+
+def _is_emptiness(t: ast.AST, flags: set) -> bool:
+  while isinstance(t, ast.UnaryOp) and isinstance(t.op, ast.Not):
+    t = t.operand
+    if isinstance(t, ast.Attribute) and 'count' in t.attr:
+      return True
+  if isinstance(t, ast.Name) and t.id in flags:
+    return True
+  if isinstance(t, ast.Compare) and len(t.ops) == 1 and isinstance(t.comparators[0], ast.Constant) and t.comparators[0].value == 0:
+    return isinstance(t.left, ast.Attribute) and 'count' in t.left.attr
+  if isinstance(t, ast.BoolOp):
+    return any(_is_emptiness(v, flags) for v in t.values)
+  return False
+
+
 from mlmverif.selfcheck import B, OK  # noqa: E402
 
 _R = 'aggregates/rolling_stats.py'
 _U = 'aggregates/utils.py'
 _T = 'aggregates/retrieval.py'
 VARIANTS = [
+    B('add-replaces-placeholders-merge-does-not', 'aggregates/rolling_stats.py',
+      '    self._min = np.minimum(self._min, np.min(inputs, axis=self.axis))\n    self._max = np.maximum(self._max, np.max(inputs, axis=self.axis))\n',
+      '    batch_min = np.min(inputs, axis=self.axis)\n    batch_max = np.max(inputs, axis=self.axis)\n    if is_first_batch:\n      self._min, self._max = batch_min, batch_max\n    else:\n      self._min = np.minimum(self._min, batch_min)\n      self._max = np.maximum(self._max, batch_max)\n',
+      'R-C11-9',
+      extra=[('aggregates/rolling_stats.py', '    self._count += np.asarray(inputs).size\n\n    if self.batch_score_fn is not None:', '    is_first_batch = not self._count\n    self._count += np.asarray(inputs).size\n\n    if self.batch_score_fn is not None:')]),
     B('merge-carries-only-operand-top-k', 'aggregates/text.py',
       '    # TODO(b/331796958): Optimize storage consumption\n    self._state.merge(other.state)',
       '    top_k = sorted(other.state.counter.items(), key=lambda x: (-x[1], x[0]))\n    other_state = FrequencyState(counter=collections.Counter(dict(top_k[: self.k])), count=other.state.count)\n    self._state.merge(other_state)',
